@@ -97,7 +97,7 @@ def memo_extrap(dadi, model, args, ns, pts, rec, site, tags, cache=None):
 
 
 def run_neutral(spec, rec, dadi):
-    from dadi import Integration, Demographics1D
+    from dadi import Integration, Demographics1D, Numerics
     for ci in range(spec["n"]):
         rng = rng_for(spec["seed"], "C01neutral", spec["b"], ci)
         n = int(rng.integers(2, 31))
@@ -142,6 +142,14 @@ def run_neutral(spec, rec, dadi):
                 ts = (np.arange(K) + 0.5) / K * T
                 epochs = [(float(np.exp(np.log(nu) * t / T)), T / K) for t in ts]
                 model, args = Demographics1D.growth, (nu, T)
+        if spec["b"] == 1 and ci in (0, 1) and not spec.get("fixed_case"):
+            # a piecewise-constant history of two or more epochs run on one absolute time axis (initial_t = end of the previous
+            # call), with the sizes as constants (ci = 0) and as functions of time (ci = 1)
+            which, asfunc = "composed", ci == 1
+            epochs = draw_history(rng)
+            while len(epochs) < 2:
+                epochs = epochs + draw_history(rng)
+            model, args = composed_model(dadi, asfunc, abs_time=True), epochs
         if spec.get("fixed_case"):
             fc = spec["fixed_case"]
             which, n, asfunc = "three_epoch", int(fc["n"]), False
@@ -169,6 +177,16 @@ def run_neutral(spec, rec, dadi):
                 # (the grid list is a set of grids: every third case names them in another order)
                 glist = [[G, G + 10, G + 20], [G + 20, G, G + 10], [G + 10, G + 20, G]][ci % 3]
                 res = memo_extrap(dadi, model, args, (n,), glist, rec, site, tags, cache=shared)
+                if tf == 1e-4 and ci % 4 == 1 and (G + 20) in shared:
+                    # a list of one grid (or a bare number) leaves nothing to extrapolate: either mode returns that grid's result
+                    raw = np.asarray(shared[G + 20].data)
+                    for log1 in (False, True):
+                        mk1 = Numerics.make_extrap_log_func if log1 else Numerics.make_extrap_func
+                        for pts1 in ([G + 20], G + 20):
+                            ok1, one = rec.noraise("model-returns", lambda: mk1(lambda a, n_, p: shared[p])(args, (n,), pts1), site=site, tags=dict(tags, log=log1, single_grid=True))
+                            if ok1:
+                                rec.close("single-grid-is-the-grid-result", relerr(np.asarray(one.data)[1:n], raw[1:n]), 1e-12, site=site,
+                                          tags=dict(tags, log=log1, scalar_pts=not isinstance(pts1, list)))
                 for log, fs in res.items():
                     if fs is None:
                         continue
